@@ -190,6 +190,17 @@ def w2(ctx):
                 old_args = [a for a in r[3] if not any(isinstance(x, tuple) and x[0] == "call" and x[1] in (b.name, crate.aliases.get(b.id)) for x in role_walk(a)) and role_mentions_param(a, pname)]
                 ok = bool(rec_args) and bool(old_args)
                 if ok:
+                    # the rest of the path is ALWAYS the recursive answer: it ends with the leader's own entry, which is not the identity
+                    # once the leader lost slots (the redundancy witness restricts it).  An alternative that reads the parent's table
+                    # entry directly ("the parent already points to a leader") skips that last edge for chains of two or more hops
+                    def always_rec(a):
+                        a = strip_role(a)
+                        if isinstance(a, tuple) and a[0] == "phi":
+                            return all(always_rec(x) for x in a[1])
+                        return any(isinstance(x, tuple) and x[0] == "call" and x[1] in (b.name, crate.aliases.get(b.id)) for x in role_walk(a))
+                    ctx.check(always_rec(rec_args[0]), "compression-walks-to-the-leader:" + C.fkey(b), "the rest of the path is the recursive answer on every path",
+                              "path compression in %s takes the rest of the path from %s on some path instead of the recursive walk: the leader's own (slot-restricting) entry is not composed in, a handle canonicalised through a chain of two or more hops mentions slots the leader no longer has, and the stale entry is written back" % (C.short(b.id), role_str(rec_args[0])[:80]),
+                              where_of(b, bi, s.get("line")))
                     io, ir = r[3].index(old_args[0]), r[3].index(rec_args[0])
                     ctx.check(io < ir, "compression-order:" + C.fkey(b), "the old entry (edge out of the queried id) comes first, the recursive result (rest of the path) second",
                               "path compression in %s combines (recursive result, old entry) in that order: the chaining helper composes `first ; second`, the old entry is the first edge of the path — swapped, slot maps of unrelated classes are composed" % C.short(b.id),
